@@ -94,6 +94,14 @@ def values(rng, shape, vclass, dtype="float64"):
         a = rng.uniform(0.05, 0.95, shape)
     elif vclass == "moderate":
         a = rng.uniform(-4, 4, shape)
+    elif vclass == "special":
+        # IEEE special values sprinkled over ordinary ones: nan, +-inf, -0.0
+        a = rng.standard_normal(shape)
+        pick = rng.random(shape)
+        a = np.where(pick < 0.12, np.nan, a)
+        a = np.where((pick >= 0.12) & (pick < 0.2), np.inf, a)
+        a = np.where((pick >= 0.2) & (pick < 0.28), -np.inf, a)
+        a = np.where((pick >= 0.28) & (pick < 0.36), -0.0, a)
     else:
         raise ValueError(vclass)
     a = np.asarray(a, dtype=np.float64).reshape(shape)
